@@ -1,6 +1,8 @@
 package sqlparser
 
 import (
+	"strings"
+
 	"github.com/cube2222/octosql/zzverif"
 )
 
@@ -109,3 +111,75 @@ func VerifC30Statement() {
 }
 
 func VerifC30Len() { zzverif.Assert(len(verifCatalogue) == zzverif.Param("N"), "catalogue-size") }
+
+// VerifC30StmtLeaf: a concrete statement shape whose leaf WHICH is replaced IN THE TREE by a
+// symbolic one (0: string literal, 1: field name after ->, 2: column alias, 3: table name,
+// 4: table alias); print, parse (the goyacc driver runs on concrete token kinds, the lexer on the
+// symbolic bytes), and require that the statement parses, prints identically and that the tree —
+// in particular the leaf — is the same.
+func VerifC30StmtLeaf() {
+	which := zzverif.Param("WHICH")
+	stmt1, err := Parse("SELECT x->fld AS al, 'lit' FROM tbl t WHERE t.c = 2")
+	if err != nil {
+		zzverif.Assert(false, "template-is-accepted")
+		return
+	}
+	sel := stmt1.(*Select)
+	L := zzverif.Param("L")
+	if which == 0 {
+		s := verifNDLiteral("s", L, 0)
+		sel.SelectExprs[1].(*AliasedExpr).Expr.(*SQLVal).Val = []byte(s)
+		zzverif.Known("C30-string-escape-asymmetry", verifEscAsym(s))
+	} else {
+		name, invalid, suppLetter := verifNDName("n", L, zzverif.Param("MB"))
+		switch which {
+		case 1:
+			sel.SelectExprs[0].(*AliasedExpr).Expr.(*ObjectFieldAccess).Field = NewColIdent(name)
+		case 2:
+			sel.SelectExprs[0].(*AliasedExpr).As = NewColIdent(name)
+		case 3:
+			sel.From[0].(*AliasedTableExpr).Expr = TableName{Name: NewTableIdent(name)}
+		case 4:
+			sel.From[0].(*AliasedTableExpr).As = NewTableIdent(name)
+		}
+		zzverif.Known("C30-ident-slash", zzverif.StrEq(name, "/"))
+		zzverif.Known("C30-ident-invalid-utf8", invalid)
+		zzverif.Known("C30-ident-rune-truncation", zzverif.And(suppLetter, zzverif.Not(invalid)))
+	}
+	s := String(stmt1)
+	stmt2, err2 := Parse(s)
+	zzverif.Reach("printed")
+	zzverif.Assert(err2 == nil, "printed-text-parses")
+	zzverif.Assert(zzverif.StrEq(String(stmt2), s), "print-is-fixpoint")
+	zzverif.Assert(zzverif.StrEq(verifDump(stmt1), verifDump(stmt2)), "same-tree")
+}
+
+// VerifC30TriggerNode: the four trigger kinds printed on their own (Triggers.Format), appended to a
+// select and parsed again must give the same trigger (on the unrepaired tree Select.Format never
+// prints the clause, which hides the printers of the individual triggers from VerifC30Statement).
+func VerifC30TriggerNode() {
+	k := zzverif.Param("KIND")
+	if k < 0 {
+		k = zzverif.Choice("kind", 4)
+	}
+	one := &SQLVal{Type: IntVal, Val: []byte("1")}
+	var tr Trigger
+	switch k {
+	case 0:
+		tr = &WatermarkTrigger{}
+	case 1:
+		tr = &CountingTrigger{Count: one}
+	case 2:
+		tr = &EndOfStreamTrigger{}
+	default:
+		tr = &DelayTrigger{Delay: &IntervalExpr{Expr: one, Unit: "SECOND"}}
+	}
+	text := "select a from t " + strings.TrimSpace(String(Triggers{tr}))
+	stmt, err := Parse(text)
+	zzverif.Reach("printed")
+	zzverif.Known("C30-trigger-printed-with-wrong-keywords", k >= 2)
+	zzverif.Assert(err == nil, "printed-trigger-parses")
+	sel := stmt.(*Select)
+	zzverif.Assert(len(sel.Trigger) == 1, "one-trigger")
+	zzverif.Assert(verifDump(sel.Trigger[0]) == verifDump(tr), "same-trigger")
+}
